@@ -303,7 +303,7 @@ func plan(c *hxlib.Ctx) []netCfg {
 		if i%4 == 3 {
 			crash, window = 0, 0
 		}
-		add(4, []int{c.Rand.Intn(4)}, heights, st, crash, window, 45+float64(heights)*8)
+		add(4, []int{c.Rand.Intn(4)}, heights, st, crash, window, 20+float64(heights)*6)
 	}
 	if thorough {
 		for i := 0; i < c.N(2); i++ {
@@ -352,7 +352,7 @@ func emitNet(c *hxlib.Ctx, idx int, res *netResult, forCanary **netw) {
 			return
 		}
 	}
-	oracle := strings.Join(nw.oracle, " ;; ")
+	oracle := joinOracle(nw.oracle)
 	in := netInput{Cfg: cfg}
 	if oracle != "" {
 		in.Rec = nw.record()
@@ -571,7 +571,7 @@ func replay(raw json.RawMessage) string {
 		res := runNet(in.Cfg)
 		msg := ""
 		if res.nw != nil {
-			msg = strings.Join(res.nw.oracle, " ;; ")
+			msg = joinOracle(res.nw.oracle)
 		}
 		res.finish()
 		if msg != "" {
@@ -579,6 +579,13 @@ func replay(raw json.RawMessage) string {
 		}
 	}
 	return ""
+}
+
+// joinOracle: the agreement violation first, then O2..O5
+func joinOracle(l []string) string {
+	c := append([]string(nil), l...)
+	sort.SliceStable(c, func(i, j int) bool { return c[i][:4] < c[j][:4] })
+	return strings.Join(c, " ;; ")
 }
 
 func firstOf(l []string) string {
@@ -609,6 +616,6 @@ func main() {
 			"first the directed scenarios (stale-lock: the schedule of docs/notes/C01_spec.md §0 with a restart of the re-locked validator; old-polka; split-precommit; threshold). " +
 			"Kinds: net-* = one net (direct oracles O1..O5 on it), node-* = the trace of one real node over one height replayed in the node model (+ guards of its ghost log), global-* = all events of one height in global order through run_net. " +
 			"Non-trivial: a net with at least one finalize and (a Byzantine vote delivered to a real node or a crash/restart); a node trace with >= 6 events and an own vote/proposal; a global trace with a finalize, >= 12 events and a Byzantine send or a crash. Distinct = distinct (seed, net, node, height)",
-		Gen: gen, Replay: replay, Shard: 6,
+		Gen: gen, Replay: replay, Shard: 12,
 	})
 }
